@@ -2,6 +2,8 @@ import UralModel.Lemmas.LruStems
 import UralModel.Lemmas.LruHostname
 import UralModel.Lemmas.LruString
 import UralModel.Gen.LruPatterns
+import UralModel.Gen.ProtocolRe
+import UralModel.Gen.UrllibTables
 /-!
 # C12 — URL → LRU conversion is lossless and serialisation is invertible
 
@@ -49,6 +51,16 @@ theorem serialized_lru_splitter_probes :
     Gen.LruPatterns.splitterProbes.all
       (fun pr => splitBy (fun c rest => c == '|' && tagAhead rest) pr.1 == pr.2) = true := by
   decide
+
+/-- `PROTOCOL_RE` is still the pattern `UrlParts.protoLen` (inside `urlParts`, the string-level
+model of `urlsplit(ensure_protocol(u))`) was written for -/
+theorem protocol_re_pattern :
+    Gen.protocolRePattern = "^(?:[a-zA-Z]{1,64}:)?//" ∧ Gen.protocolReFlags = 32 := by decide
+
+/-- `urllib.parse.uses_netloc` of the running interpreter is the table of both `urlunsplit`
+models (`Py/Split.lean` used by `lru_to_url`, `Py/UrlSplit.lean` used by the round-trip lemma) -/
+theorem urllib_uses_netloc :
+    Gen.usesNetloc = Py.usesNetloc20 ∧ Gen.usesNetloc = Py.usesNetloc := by decide
 
 /-! ## what is assumed about `split_suffix` -/
 
